@@ -92,7 +92,7 @@ class ThreadsProperty:
                 agg["sweep_sites_that_preempted"] += 1
             shapes.add(out.shape)
             if out.violation:
-                out.violation["detail"] = "[site sweep: only extra pre-emption point is call site %s (%s) on thread %d] %s" % (addr, sym or "?", thread, out.violation.get("detail"))
+                out.violation["detail"] = "[site sweep: %s, thread %d] %s" % (sym or "?", thread, out.violation.get("detail"))
                 out.stats = agg
                 out.case = dict(sc=sc)
                 return out
@@ -124,6 +124,8 @@ class ThreadsProperty:
         else:
             ihash = None
         nontrivial = stats.get("scheduler_steps", 0) >= 30
+        if v and sc.get("instr_site"):
+            v = (v[0], "[only extra pre-emption point: call site 0x%s of the instrumented build] %s" % (sc["instr_site"], v[1]))
         o = Outcome(violation=dict(clause=v[0], detail=v[1]) if v else None, stats=stats, digest=res.digest, nontrivial=nontrivial,
                     sample=dict(scenario=text, log_head=res.raw[:1500]), shape=ihash)
         if keep_events:
